@@ -47,6 +47,7 @@ class Resolver:
     def __init__(self):
         self.exact = {}
         self.texts = []
+        self.raws = {}
 
     def add(self, ref, n):
         t = mk_text(ref, n)
@@ -56,9 +57,7 @@ class Resolver:
         return t
 
     def add_raw(self, text, ref):
-        if text not in self.exact:
-            self.exact[text] = ref
-            self.texts.append((text, ref))
+        self.raws[text] = ref
 
     def resolve(self, s):
         if s == "":
@@ -72,10 +71,11 @@ class Resolver:
         return ["?", len(s)]
 
     def resolve_raw(self, s):
-        r = self.exact.get(s)
+        """Whole password arguments (forwarded verbatim as MORE): <<ref, 0>> on an exact match."""
+        r = self.raws.get(s)
         if r is not None:
             return [r, 0]
-        for t, ref in self.texts:
+        for t, ref in self.raws.items():
             if t.startswith(s):
                 return [ref, len(s)]
         return ["?", len(s)]
@@ -286,7 +286,7 @@ class Daemon:
             if sh == "ok":
                 arg = "".join(e["modes"]) + " " + R.add(*e["cred"])
             elif sh == "nomode":
-                arg = R.add(*e["cred"])
+                arg = "plain " + R.add(*e["cred"])
             elif sh == "nosp":
                 arg = "+x!"
             elif sh == "nosep":
@@ -372,7 +372,7 @@ class Daemon:
             elif qw[0] == "MORE":
                 m.update(raw=R.resolve_raw(q[5:]))
             else:
-                return bad
+                m.update(text=q[:80])       # a query of an unknown kind (the contract has no rule that allows it)
             return m
         if k == "A":
             # A <module> :<text>
